@@ -6,83 +6,83 @@ ROOT = os.path.dirname(os.path.dirname(os.path.abspath(__file__)))
 # id -> (technique, level text, level note, design ref)
 CHECKS = {
  "C01": ("explicit reference automaton (minimal DFA compiled from the RFC ABNF) + complete W-method conformance suite replayed against the compiled recogniser; cold/warm automaton-cache configurations compared",
-         "For each of the 20 validated types: every state and transition of the minimal reference DFA is covered and the complete Chow suite (S u S.B).Sigma^{<=m}.W (quick m=1 over the class alphabet, thorough m=1 over the boundary alphabet and m=2 over the class alphabet, plus every Unicode scalar out of every state) is replayed against the real constructor; language equality follows unless the compiled automaton has more than n+m states. All construction routes (borrowed/owned new, TryFrom, FromStr, from_vec, six serde visitor entry points, serde_json) are compared with the reference verdict on the m=0 suite, on all short byte strings and on ill-formed UTF-8 splices; identity of value/error payload with the input is observed on every trace. The cold configuration regenerates every automaton from the grammar sources in a scratch copy and compares with the committed cache (suite replayed against the cold build if they differ).",
+         "For each of the 20 validated types: every state and transition of the minimal reference DFA is covered and the complete Chow suite (S u S.B).Sigma^{<=m}.W (quick m=1 over the class alphabet, thorough m=1 over the boundary alphabet and m=2 over the class alphabet, plus every Unicode scalar out of every state) is replayed against the real constructor; language equality follows unless the compiled automaton has more than n+m states. All construction routes (borrowed/owned new, TryFrom, FromStr, from_vec, six serde visitor entry points, serde_json) are compared with the reference verdict on the m=0 suite, on all short byte strings and on ill-formed UTF-8 splices; identity of value/error payload with the input is observed on every trace; every conversion route between the eight reference / non-reference types is judged by the target type's reference DFA on RAW(n). The cold configuration regenerates every automaton from the grammar sources in a scratch copy and compares with the committed cache (suite replayed against the cold build if they differ).",
          "Trusted: /verif/spec transcription of the RFC grammars (cross-checked against a direct derivation matcher), the W-method theorem's state-bound premise, rustc/cargo. The implementation's automaton is not observable, hence black-box conformance.",
          "DESIGN.md section 6, C01"),
  "C02": ("exhaustive input-space sweep (all token strings up to a length bound + structured compositions) against an RFC 3986 Appendix B splitting model",
-         "Every string of up to 7 (quick) / 8 (thorough) tokens over the seven bytes the scanners branch on plus class representatives, filtered by the reference DFA, and a structured product scheme x authority x path x query x fragment (IPv6, multi-byte text at every boundary); each through accessors, parts(), borrowed, owned, reference and non-reference types; every returned component re-validated by the library and by the reference DFA; recomposition must reproduce the text. Exhaustive inside the bound.",
+         "Every string of up to 7 (quick) / 8 (thorough) tokens over the seven bytes the scanners branch on plus class representatives, filtered by the reference DFA, and a structured product scheme x authority x path x query x fragment (IPv6, multi-byte text at every boundary); each through accessors, parts(), borrowed, owned, reference and non-reference types; every returned component re-validated by the library and by the reference DFA; recomposition must reproduce the text; an IRI sweep over characters whose UTF-8 bytes or code points are twins of the delimiters. The IRI half of the whole domain is run again as wide passes with its non-ASCII representative (2-byte U+00E9) replaced by a 4-byte (U+10000; quick and thorough) and a 3-byte (U+D7FF; thorough) character. Exhaustive inside the bound.",
          "Trusted: the 60-line Appendix-B splitting model, the reference DFAs from /verif/spec. Data independence of the scanners w.r.t. bytes outside ': / ? # @ [ ]' is re-checked with decoy bytes in thorough, not proved.",
          "DESIGN.md section 6, C02"),
  "C03": ("exhaustive input-space sweep (all authority token strings up to a length bound + user-info x host-kind x port product, stand-alone and embedded) against an RFC 3986 section 3.2 splitting model",
-         "Every string of up to 7 (quick) / 8 (thorough) tokens over {a 1 : @ [ ] . %41 v (e-acute)} accepted by the reference authority DFA (this contains every IPv6/IPvFuture shape of that length combined with every user-info/port shape) plus the product of named user-info, host and port values, each stand-alone and embedded in three kinds of reference. Exhaustive inside the bound.",
+         "Every string of up to 7 (quick) / 8 (thorough) tokens over {a 1 : @ [ ] . %41 v (e-acute)} accepted by the reference authority DFA (this contains every IPv6/IPvFuture shape of that length combined with every user-info/port shape) plus the product of named user-info, host and port values, each stand-alone and embedded in three kinds of reference; delimiter twins for the IRI family. The IRI half of the whole domain is run again as wide passes with its non-ASCII representative (2-byte U+00E9) replaced by a 4-byte (U+10000; quick and thorough) and a 3-byte (U+D7FF; thorough) character. Exhaustive inside the bound.",
          "Trusted: the 30-line authority splitting model and the reference DFAs. Hosts longer than the token bound are represented by the named product only.",
          "DESIGN.md section 6, C03"),
  "C04": ("explicit-state breadth-first search over every safe mutator of every owned buffer type (transition = one real call on a real buffer; state = buffer text), invariant checked in every reached state",
-         "From Default, from_scheme and ~3000 structured initial buffers per family, every sequence of up to 2 (quick) / 3 (thorough) calls drawn from ~90 operations (5 setters incl. removal and every value needing disambiguation, 6 path edits via path_mut, 3 authority edits via authority_mut, in-place resolve against 7 bases; PathBuf's own edits) on RiRefBuf, RiBuf and PathBuf of both families; in every reached state: no panic, UTF-8, accepted by the checked constructor of the same type and by the reference DFA, and all accessors executed. Thorough explores 1.4 M states / 140 M transitions. De-duplication on text is exact (no handle survives a transition).",
+         "From Default, from_scheme and ~3000 structured initial buffers per family, every sequence of up to 2 (quick) / 3 (thorough) calls drawn from ~90 operations (5 setters incl. removal and every value needing disambiguation, 6 path edits via path_mut, 3 authority edits via authority_mut, in-place resolve against 7 bases; PathBuf's own edits) on RiRefBuf, RiBuf and PathBuf of both families; in every reached state: no panic, UTF-8, accepted by the checked constructor of the same type and by the reference DFA, and all accessors executed. Every transition is executed on an exact-fit buffer, on a buffer with spare capacity and as the last step of its BFS history on ONE live buffer, with equal results demanded. A second pass starts from the constructor values only ('', 's:', '/') and goes one level deeper (every buffer that can be built from nothing by 3 / 4 safe calls). The IRI half of the whole domain is run again as wide passes with its non-ASCII representative (2-byte U+00E9) replaced by a 4-byte (U+10000; quick and thorough) and a 3-byte (U+D7FF; thorough) character. De-duplication on text is exact (no handle survives a transition).",
          "Trusted: the reference DFAs (validity oracle). Bounds: depth 2/3 from the initial set, texts cut at 40 bytes (counted), finite argument alphabet. Overflow checks are on (the configuration cargo test uses).",
          "DESIGN.md section 6, C04"),
  "C05": ("exhaustive sweep over (buffer, setter value) pairs against a frame model on the RFC 3986 decomposition",
-         "Every structured buffer (scheme x authority x PATH(2) x query x fragment, delimiter-bearing and 40/600-byte tails, colon-first paths) x every value of the five setters incl. removal and longer/equal/shorter replacements, on RiRefBuf and RiBuf of both families (2 M cases quick): the decomposition of the new text equals the old one with the targeted component replaced, up to the three documented path adjustments each accepted only under its documented precondition; result valid; accessors read back the same.",
+         "Every structured buffer (scheme x authority x PATH(2) x query x fragment, delimiter-bearing and 40/600-byte tails, colon-first paths) x every value of the five setters incl. removal and longer/equal/shorter replacements, on RiRefBuf and RiBuf of both families, exact-fit and spare-capacity buffers, new values that equal the old one under == but not bytewise: the decomposition of the new text equals the old one with the targeted component replaced, up to the three documented path adjustments each accepted only under its documented precondition; result valid; accessors read back the same. The IRI half of the whole domain is run again as wide passes with its non-ASCII representative (2-byte U+00E9) replaced by a 4-byte (U+10000; quick and thorough) and a 3-byte (U+D7FF; thorough) character.",
          "Trusted: the Appendix-B splitting model and the frame oracle c05_frame_ok (40 lines).",
          "DESIGN.md section 6, C05"),
  "C06": ("exhaustive sweep over all (base, reference) pairs of a structured domain against a transcription of RFC 3986 5.2.2-5.2.4 + Errata 4547 + 5.3",
-         "All pairs of ~450 (quick) / ~2200 (thorough) bases (with/without/empty authority; empty, absolute, rootless paths with dot, empty and colon segments; with/without query) and 3.5-25 k references covering every branch of RFC 5.2.2 (own scheme, own authority, empty path, absolute path, relative path) with any mixture of '.', '..', empty and ordinary segments, queries and fragments: 2.3 M pairs quick, 54 M thorough, both families; resolved / resolve / into_resolved must agree; exact text equality with the RFC target when it re-parses to the same components; validity + RFC scheme/authority/query/fragment + unambiguous rendering of the RFC path otherwise; base unchanged.",
+         "All pairs of ~450 (quick) / ~2200 (thorough) bases (with/without/empty authority; empty, absolute, rootless paths with dot, empty and colon segments; with/without query) and 3.5-25 k references covering every branch of RFC 5.2.2 (own scheme, own authority, empty path, absolute path, relative path) with any mixture of '.', '..', empty and ordinary segments, queries and fragments: both families, plus bases with fragments, paths beyond the 16-segment / 512-byte inline buffers and a sub-domain with '/' and '?' inside queries and fragments on both sides; resolved / resolve / into_resolved must agree; exact text equality with the RFC target when it re-parses to the same components; validity + RFC scheme/authority/query/fragment + unambiguous rendering of the RFC path otherwise; base unchanged. The IRI half of the whole domain is run again as wide passes with its non-ASCII representative (2-byte U+00E9) replaced by a 4-byte (U+10000; quick and thorough) and a 3-byte (U+D7FF; thorough) character.",
          "Trusted: the resolution model (model/resolve.rs, 120 lines), checked on every run against the 42 examples of RFC 3986 5.4.1/5.4.2 typed in from the RFC. Leniencies: ambiguous targets and relative targets starting with an empty segment are judged up to shielding/collapsing of leading empty segments (pinned by the repository's own test `../..//` -> `http:/`).",
          "DESIGN.md section 6, C06"),
  "C07": ("exhaustive sweep over all ordered pairs of per-type spelling domains against equality of a canonical form (RFC decomposition + dot-segment normalisation + percent-decoding to octets)",
-         "For each of the 20 validated types a domain in which every abstract value has several spellings (A/%41, e-acute/%C3%A9/%c3%a9, a/b vs a/./b vs a/x/../b, 80/080, s/S, [::1]/[::01], empty vs absent, and ill-formed octets: %FF, overlong %C1%81, truncated %C3, surrogate %ED%A0%80); ALL ordered pairs (14 M quick), borrowed and owned, == and !=, plus the 26 provided cross-type impls between Ri/RiRef/RiBuf/RiRefBuf; == must return, without panicking, exactly equality of the canonical form (hence reflexive, symmetric, transitive).",
+         "For each of the 20 validated types a domain in which every abstract value has several spellings (A/%41, e-acute/%C3%A9/%c3%a9, a/b vs a/./b vs a/x/../b, 80/080, s/S, [::1]/[::01], empty vs absent, and ill-formed octets: %FF, overlong %C1%81, truncated %C3, surrogate %ED%A0%80); plus, systematically, every component text of <= 2 tokens over letters / encoded letters in both hex cases / literal and encoded delimiters / sub-delimiters around '/', PATH(2) (thorough PATH(3)) over segment spellings, reg-names that only decode to an IP literal or to authority delimiters, 16/17/18-segment paths and 70-byte components; ALL ordered pairs (20 M quick), borrowed and owned, == and !=, plus the 26 provided cross-type impls between Ri/RiRef/RiBuf/RiRefBuf; == must return, without panicking, exactly equality of the canonical form (hence reflexive, symmetric, transitive).",
          "Trusted: the canonical-form model (model/equiv.rs, 100 lines). The domains are finite spelling sets; text outside them is represented by class.",
          "DESIGN.md section 6, C07"),
  "C08": ("exhaustive sweep over all ordered pairs (and all triples of a class-complete sub-domain) of the C07 spelling domains for Eq/Ord/Hash coherence, plus Borrow-contract and collection-lookup checks per value",
-         "On all ordered pairs of the C07 domains: equal values hash identically (fixed-key FNV hasher and DefaultHasher), cmp == Equal exactly when ==, partial_cmp == Some(cmp), antisymmetry, symmetry of ==, owned results identical to borrowed, cross-type partial_cmp identical; transitivity of cmp on all triples of a sub-domain holding two members of every class; for every URI/IRI: hash equality through every Borrow view (RiBuf->Ri->RiRef, Uri->Iri/IriRef) and insert-then-lookup in HashSet/BTreeSet through each view.",
+         "On all ordered pairs of the C07 domains: equal values hash identically (fixed-key FNV hasher, a chunk-sensitive hasher and DefaultHasher), cmp == Equal exactly when ==, partial_cmp == Some(cmp), antisymmetry, symmetry of ==, owned results identical to borrowed, cross-type partial_cmp identical; transitivity of cmp on all triples of a sub-domain holding two members of every class; for every URI/IRI: hash equality through every Borrow view (RiBuf->Ri->RiRef, Uri->Iri/IriRef) insert-then-lookup in HashSet/BTreeSet through each view and in collections holding the whole domain; the URI and the IRI view of the same text must compare, order and hash identically on every ordered pair.",
          "Trusted: std's Hash/Ord contracts as the oracle; no particular order is demanded, only coherence.",
          "DESIGN.md section 6, C08"),
  "C09": ("exhaustive input-space sweep of all paths up to a segment bound (+ inline-buffer threshold paths), stand-alone and embedded in every kind of reference, against a stack-walk model cross-checked with a literal RFC 3986 5.2.4 transcription",
-         "Every path over the structural segment alphabet up to 6 (quick) / 8 (thorough) segments and over the full alphabet up to 4/5, plus paths of 15..40 segments and 510..2000 bytes; for each: the normalized-segment iterator (both directions, length), the normalized copy (RFC rendering incl. trailing slash, idempotence), in-place normalisation stand-alone, and embedded in 12 reference contexts with frame check (scheme, authority, query, fragment unchanged, text valid). Exhaustive inside the bound.",
+         "Every path over the structural segment alphabet up to 6 (quick) / 8 (thorough) segments and over the full alphabet up to 4/5, plus paths of 15..40 segments and 510..2000 bytes; for each: the normalized-segment iterator (both directions, length), the normalized copy (RFC rendering incl. trailing slash, idempotence), in-place normalisation stand-alone, and embedded in 12 reference contexts with frame check (scheme, authority, query, fragment unchanged, text valid); spare-capacity buffers, a re-used handle (normalize, edit, normalize) and, for the IRI family, the handle built by the public unsafe PathMut::new over the raw buffer must give the same text. The IRI half of the whole domain is run again as wide passes with its non-ASCII representative (2-byte U+00E9) replaced by a 4-byte (U+10000; quick and thorough) and a 3-byte (U+D7FF; thorough) character. Exhaustive inside the bound.",
          "Trusted: the stack-walk model (30 lines) and its agreement with the literal 5.2.4 algorithm on absolute paths (checked on 5460 paths by selftest); rendering rules of DESIGN 5.3 (legal '.' shield, [\"\"] identified with the empty list unless shielded).",
          "DESIGN.md section 6, C09"),
  "C10": ("explicit-state breadth-first search over the real path mutators (transition = one real PathMut/PathBuf call; state = path text in a fixed reference context), lock-step list model, one-handle vs fresh-handle vs stand-alone differential",
-         "From every PATH(2) initial state in 8 (quick) / 14 (thorough) reference contexts of both families, every sequence of push/pop/clear/symbolic_push/symbolic_append/normalize up to depth 2 (quick) / 3 (thorough) over the core argument alphabet; each transition executed three ways (fresh handle, as the last call of the whole history through ONE handle, stand-alone PathBuf) and judged against the list model from the observed previous state; frame (scheme/authority/query/fragment), validity and handle view checked in every state; violating states are not expanded.",
+         "From every PATH(2) initial state in 8 (quick) / 14 (thorough) reference contexts of both families, every sequence of push/pop/clear/symbolic_push/symbolic_append/normalize up to depth 2 (quick) / 3 (thorough) over the core argument alphabet; each transition executed four ways (fresh handle, the raw-buffer handle of iri::PathMut::new, as the last call of the whole history through ONE handle, stand-alone PathBuf), on exact-fit and spare-capacity buffers, and judged against the list model from the observed previous state; frame (scheme/authority/query/fragment), validity and handle view checked in every state; violating states are not expanded. Thorough adds a depth-4 pass over the core alphabet. The IRI half of the whole domain is run again as wide passes with its non-ASCII representative (2-byte U+00E9) replaced by a 4-byte (U+10000; quick and thorough) and a 3-byte (U+D7FF; thorough) character.",
          "Trusted: the list model of model/pathops.rs with its stated leniencies (shield readings; symbolic '.'/'..' may or may not leave a trailing empty segment; an empty segment pushed symbolically onto a segment-less path may be skipped). Paths longer than 40 bytes are cut and counted.",
          "DESIGN.md section 6, C10"),
  "C11": ("explicit-state breadth-first search to fixpoint over the real authority editor (transition = one real AuthorityMut call; state = authority text in a fixed context), record model in lock-step, one-handle vs fresh-handle differential",
-         "All states reachable from the product user-info x host-kind x port under set_userinfo/set_host/set_port with absent, empty, shorter, equal-length, longer, IP-literal and multi-byte arguments, in four reference contexts, both families, RiBuf and RiRefBuf: the search runs until no new state appears, so every (state, operation) pair of the closed state space is executed, on a fresh handle and as the last call of a history through ONE handle, and the handle is read (as_authority, Deref, into_authority) after each call. Because the handle's window is determined by (buffer, view) and both are compared with the model after every step, covering all states covers all call sequences.",
+         "All states reachable from the product user-info x host-kind x port under set_userinfo/set_host/set_port with absent, empty, shorter, equal-length, longer, IP-literal and multi-byte arguments, in seven reference contexts (incl. an empty path directly followed by a query / fragment holding '@' ':' '/'), both families, RiBuf and RiRefBuf: the search runs until no new state appears, so every (state, operation) pair of the closed state space is executed, on a fresh handle, on a handle built by the public unsafe AuthorityMut::new over the raw buffer, and as the last call of a history through ONE handle, and the handle is read (as_authority, Deref, into_authority) after each call. Because the handle's window is determined by (buffer, view) and both are compared with the model after every step, covering all states covers all call sequences. The IRI half of the whole domain is run again as wide passes with its non-ASCII representative (2-byte U+00E9) replaced by a 4-byte (U+10000; quick and thorough) and a 3-byte (U+D7FF; thorough) character.",
          "Trusted: the record model {userinfo, host, port} + untouched rest (20 lines). The argument alphabet is finite (19-26 values); text outside it is represented by class.",
          "DESIGN.md section 6, C11"),
  "C12": ("exhaustive input-space sweep (all paths up to a segment bound x all next/next_back interleavings) against a '/'-split list model",
-         "Every path text over a structural segment alphabet up to 6 (quick) / 8 (thorough) segments, both families, with every path query and every interleaving of front/back iteration two steps past exhaustion, compared with a list model derived from the text. Exhaustive inside the bound; the scanners branch only on '/', so the bound covers every code path several times over.",
+         "Every path text over a structural segment alphabet up to 6 (quick) / 8 (thorough) segments, both families, with every path query, the type constants, every interleaving of front/back iteration two steps past exhaustion and the derived iterator methods (nth, last, count, size_hint, rev, fold, len) from every cursor state, plus regular schedules on paths of 16..40 segments, compared with a list model derived from the text. Exhaustive inside the bound; the scanners branch only on '/', so the bound covers every code path several times over. The IRI half of the whole domain is run again as wide passes with its non-ASCII representative (2-byte U+00E9) replaced by a 4-byte (U+10000; quick and thorough) and a 3-byte (U+D7FF; thorough) character.",
          "Trusted: the '/'-split list model (20 lines), the reference path DFA from /verif/spec deciding domain membership, rustc. Not covered: paths with more segments than the bound (except that iteration code has no length-dependent branch).",
          "DESIGN.md section 6, C12"),
  "C13": ("exhaustive sweep of every conversion between the eight URI/IRI types on all short IRI references (judged by the reference URI grammars) + differential execution of both front-ends on the same ASCII inputs",
-         "Conversions: every valid IRI reference of up to 6 (quick) / 7 (thorough) tokens incl. non-ASCII text and of the structured domain (1.9 M texts) through all 60 as_*/into_*/try_into_*/TryFrom/From routes: success exactly when the reference URI / URI-reference DFA accepts the text (resp. a scheme is present), bytes (and pointer, for borrowed forms) preserved, failures return the original value, unchecked upcasts re-validate. Differential: for every URI-valid member of the structured domain the URI and the IRI front-end must produce identical observations for all read accessors, 35 mutations (setters, path edits, authority edits, resolve) and, on all ordered pairs of a sub-domain, ==/cmp/hash/resolve/relative_to/suffix.",
+         "Conversions: every valid IRI reference of up to 6 (quick) / 7 (thorough) tokens incl. non-ASCII text and of the structured domain (1.9 M texts) through all 60 as_*/into_*/try_into_*/TryFrom/From routes: success exactly when the reference URI / URI-reference DFA accepts the text (resp. a scheme is present), bytes (and pointer, for borrowed forms) preserved, failures return the original value, unchecked upcasts re-validate. Differential: for every URI-valid member of the structured domain the URI and the IRI front-end must produce identical observations for all read accessors, 35 mutations (setters, path edits, authority edits, resolve) and, on all ordered pairs of a sub-domain (incl. paths whose byte order differs from their segment order), ==/cmp/hash/resolve/relative_to/suffix; AsRef upcasts included.",
          "Trusted: reference DFAs for URI / URI-reference; the differential half has no model at all (one front-end is the other's oracle), so a defect present identically in both is invisible to it - C02-C12, C15, C16 cover that.",
          "DESIGN.md section 6, C13"),
  "C14": ("exhaustive sweep of every textual route out on a class-complete set of valid values per type, and of every route in on the complete W-method m=0 suite per type",
-         "For each of the 20 types: every accepting trace of the class-alphabet conformance suite plus every spelling of C07's domains through 20 routes out (Display, Debug, as_str, as_bytes, AsRef<str>/<[u8]>, to_owned, Clone, into_bytes, From<Buf> for String, serde_json string and value serialisers, serialise->deserialise, text after ==/cmp/hash), borrowed and owned; comparison with plain strings (all str/String/[u8] impls) against every spelling must be plain text equality; every suite trace (valid and invalid) through every route in must be accepted exactly when `validate` accepts it.",
+         "For each of the 20 types: every accepting trace of the class-alphabet conformance suite plus every spelling of C07's domains through 20 routes out (Display, Debug, as_str, as_bytes, AsRef<str>/<[u8]>, to_owned, Clone, into_bytes, From<Buf> for String, serde_json string and value serialisers, serialise->deserialise, text after ==/cmp/hash), borrowed and owned; comparison with plain strings (all str/String/[u8] impls) against every spelling must be plain text equality; const-generic byte-array comparisons likewise; every suite trace (valid and invalid) through every route in must be accepted exactly when `validate` accepts it; every conversion route between the eight reference / non-reference types (TryFrom, From, as_*, into_*, try_into_*) on every valid IRI reference of RAW(5|6) must accept exactly what the target grammar accepts and keep the text.",
          "Trusted: rustc-generated code is exercised per type and route, so a wrong per-type derive option is visible; the suite is complete for automata with at most n states over the class alphabet.",
          "DESIGN.md section 6, C14"),
  "C15": ("exhaustive sweep over all ordered pairs (a, b) of a structured URI/IRI domain: relative_to, then the library's own resolution, compared with a by the reference equivalence",
-         "All ordered pairs over scheme {s,t} x authority {none, empty, h, g} x PATH(2) (quick, 1.2 M pairs) / PATH(3) with dot, colon and multi-byte segments (thorough, ~50 M pairs) x query x fragment, both families: no panic, result is a valid reference, inputs unchanged, both entry points agree, and result.resolved(b) is equal to a (library == where the strict model says equal; reference equivalence up to the [\"\"]/[] identification, to collapsing of leading empty segments without authority, and to a's own RFC normal form).",
+         "All ordered pairs over scheme {s,t} x authority {none, empty, h, g} x PATH(2) (quick, 1.2 M pairs) / PATH(3) with dot, colon and multi-byte segments (thorough, ~50 M pairs) x query x fragment, both families, plus paths beyond 16 segments and all ordered pairs of a second domain of authority spellings (u@h / u%40h, h:80 / h%3A80, [::1] / %5B%3A%3A1%5D, h / H / %68, s / S): no panic, result is a valid reference, inputs unchanged, both entry points agree, and result.resolved(b) is equal to a (library == where the strict model says equal; reference equivalence up to the [\"\"]/[] identification, to collapsing of leading empty segments without authority, and to a's own RFC normal form). The IRI half of the whole domain is run again as wide passes with its non-ASCII representative (2-byte U+00E9) replaced by a 4-byte (U+10000; quick and thorough) and a 3-byte (U+D7FF; thorough) character.",
          "Trusted: the resolution and equivalence models shared with C06/C07. The leniencies are exactly the corners where RFC dot-segment removal cannot reproduce a (a kept trailing '..', a lone empty segment, a leading empty segment without authority).",
          "DESIGN.md section 6, C15"),
  "C16": ("exhaustive sweep over all ordered (value, prefix) pairs of path and reference domains, and over all short references for base(), against the normalised-segment prefix model",
-         "Path::suffix on all ordered pairs PATH(3) x PATH(2) (quick) / PATH(4) x PATH(3) (thorough) over {'' . .. a b a:b %61 %FF}: Some exactly when same absoluteness and the prefix's normalised decoded segments lead the value's; the returned path renders the remaining segments; pushing them onto the prefix gives a path == the original. Ri/RiRef::suffix on all ordered pairs of ~700 references (equal/different scheme and authority incl. %-spellings): gate, own query/fragment, agreement of entry points. base() on every valid reference of RAW(6)/RAW(7) (1.1 M texts) and of the reference domain: text up to and including the last '/' of the path, valid, no query/fragment.",
+         "Path::suffix on all ordered pairs PATH(3) x PATH(2) (quick) / PATH(4) x PATH(3) (thorough) over {'' . .. a b a:b %61 %FF}: Some exactly when same absoluteness and the prefix's normalised decoded segments lead the value's; the returned path renders the remaining segments; pushing them onto the prefix gives a path == the original. Ri/RiRef::suffix on all ordered pairs of ~1500 references (equal / different / case-different scheme, equal/different authority incl. %-spellings and u@h vs u%40h): gate, own query/fragment, agreement of entry points. base() on every valid reference of RAW(6)/RAW(7) (1.1 M texts) and of the reference domain: text up to and including the last '/' of the path, valid, no query/fragment. The IRI half of the whole domain is run again as wide passes with its non-ASCII representative (2-byte U+00E9) replaced by a 4-byte (U+10000; quick and thorough) and a 3-byte (U+D7FF; thorough) character.",
          "Trusted: the decomposition, path-list and equivalence models.",
          "DESIGN.md section 6, C16"),
  "C17": ("program enumeration: every program 'one macro invocation on one string literal' of a finite literal set compiled by the real rustc with the real proc-macro; acceptance set vs the run-time parser and the reference DFA; accepted constants compared with the run-time parse in an executed program",
-         "For the four macros, literals = transition cover (every state, every transition over the class alphabet) of the reference DFA of the macro's type continued by characterisation suffixes, plus literals that need escaping in Rust source ({ } # quote backslash, control characters, non-ASCII, bidi controls), each in up to three spellings (escaped, raw, raw with hashes): 55 k programs quick, ~200 k thorough. One `cargo check --message-format=json` of a file with one invocation per line gives the macro's acceptance set; it must equal the run-time parser's (and the reference grammar's); a second program holding every accepted invocation is built and RUN, comparing text, the five components and == of each constant with the run-time parse of the same string.",
+         "For the four macros, literals = transition cover (every state, every transition over the class alphabet) of the reference DFA of the macro's type continued by characterisation suffixes, plus literals that need escaping in Rust source ({ } # quote backslash, control characters, non-ASCII, bidi controls), each in up to six spellings (minimal escapes, raw, raw with hashes, every character as \\u{..}, ASCII as \\xNN, backslash-newline continuation), and every %XX literal also with lower-case hex digits: 86 k programs quick. One `cargo check --message-format=json` of a file holding every invocation gives the macro's acceptance set; it must equal the run-time parser's (and the reference grammar's); a second program holding every accepted invocation is built and RUN, comparing text, the five components and == of each constant with the run-time parse of the same string.",
          "Trusted: rustc/cargo reporting each compile_error! at its invocation line; the literal set is complete for the transition structure, not for all strings (C01 ties the run-time parser to the RFC for all strings). Non-literal macro arguments are outside the quantifier.",
          "DESIGN.md section 6, C17"),
  "C18": ("exhaustive sweep of all short token sequences (as byte strings) through both data-URL constructors and all views, with an independent RFC 4648 decoder and a hang watchdog",
-         "All sequences of up to 5 (quick) / 6 (thorough) tokens over 19 tokens (data:, dat, :, ',', ;, base64, 'base64,', a, /, #, ?, %41, %, =, A, space, QQ==, +, raw non-ASCII bytes): 2.6 M byte strings quick; constructors and string routes agree; acceptance implies validity under the reference URI DFA and the data-URL shape; for every accepted value (15 k quick) borrowed, owned and owned-through-Deref views coincide, accessors equal parts(), the parts reassemble the text, decoded data equals the independent decoder's (or the raw data bytes when not base64); a watchdog reports a case that does not terminate within 3 s.",
+         "All sequences of up to 5 (quick) / 6 (thorough) tokens over 21 tokens (data:, dat, :, ',', ;, base64, 'base64,', 'BASE64,', bAse64, a, /, #, ?, %41, %, =, A, space, QQ==, +, raw non-ASCII bytes), plus media types of 244..65536 bytes: 4.3 M byte strings quick; constructors, string routes and serde routes agree; acceptance implies validity under the reference URI DFA and the data-URL shape; for every accepted value borrowed, owned and owned-through-Deref views and every AsRef / Borrow / Deref / as_uri view coincide, the stand-alone parts parser agrees, accessors equal parts(), the parts reassemble the text, decoded data equals the independent decoder's (or the raw data bytes when not base64); a watchdog reports a case that does not terminate within 20 s.",
          "Trusted: the 40-line RFC 4648 decoder and the weak shape model; the reference URI DFA.",
          "DESIGN.md section 6, C18"),
  "C19": ("exhaustive sweep over all short %XX token sequences (every class of the UTF-8 decoding automaton) in every percent-decodable component, against an octet-level decoding model",
-         "All sequences of up to 3 (quick) / 4 (thorough) tokens over 21-22 tokens covering ASCII, literal non-ASCII, continuation bytes low/high, overlong leads C0/C1/E0, 2/3/4-byte leads, surrogate lead ED A0, beyond-range F4 90 / F5, FF, %2F, %25, for Segment, Host, UserInfo, Query, Fragment of both families, stand-alone and obtained from a parsed URI/IRI (209 k values quick): bytes() equals the model's octets, and chars/len/decode/== str/Deref/into_pct_string terminate and yield the UTF-8 text of well-formed octets and never equate ill-formed octets with well-formed text.",
+         "All sequences of up to 3 (quick) / 4 (thorough) tokens over 21-22 tokens covering ASCII, literal non-ASCII, continuation bytes low/high, overlong leads C0/C1/E0, 2/3/4-byte leads, surrogate lead ED A0, beyond-range F4 90 / F5, FF, %2F, %25, for Segment, Host, UserInfo, Query, Fragment of both families, stand-alone and obtained from a parsed URI/IRI incl. IP-literal and IPv4 hosts: bytes() equals the model's octets, and chars/len/decode/== str/Deref/into_pct_string terminate and yield the UTF-8 text of well-formed octets and never equate ill-formed octets with well-formed text.",
          "Trusted: the octet decoder of model/equiv.rs. Two known findings rooted in the pct-str / utf8-decode dependencies are listed in known_findings.json with matchers pinned to the panic site pct-str-2.0.0/src/lib.rs:200 and to the (operation, ill-formed octets, wrong value) signature; any other violation still exits 1.",
          "DESIGN.md section 6, C19"),
  "C20": ("exhaustive sweep of all short references (+ inputs far larger than any inline buffer) under a counting global allocator and pointer-range monitor",
-         "Every valid reference of up to 6 (quick) / 7 (thorough) tokens and of the structured domain, both families (2.8 M inputs quick), plus 17/40-segment and 600/5000-byte inputs: about 50 probes per input - heap allocation count across new, validate, every component accessor, parts(), full forward and backward segment iteration, first/last/file_name/directory/parent/parent_or_empty, base, authority accessors and parts, component constructors; every returned slice must lie inside the caller's input (or be one of the constants \"\", \"/\", \"/./\"); the parsed value must be exactly the input slice; scheme < authority < path < query < fragment by address, disjoint; accessors and parts() must point at the same bytes.",
+         "Every valid reference of up to 6 (quick) / 7 (thorough) tokens and of the structured domain, both families (2.8 M inputs quick), plus 17/40-segment and 600/5000-byte inputs incl. 2-, 3- and 4-byte characters: about 50 probes per input - heap allocation count across new, validate, every component accessor, parts(), full forward and backward segment iteration, first/last/file_name/directory/parent/parent_or_empty, base, authority accessors and parts, component constructors; every returned slice must lie inside the caller's input (or be one of the constants \"\", \"/\", \"/./\"); the parsed value must be exactly the input slice; scheme < authority < path < query < fragment by address, disjoint; accessors and parts() must point at the same bytes. The IRI half of the whole domain is run again as wide passes with its non-ASCII representative (2-byte U+00E9) replaced by a 4-byte (U+10000; quick and thorough) and a 3-byte (U+D7FF; thorough) character.",
          "Trusted: the counting allocator (per-thread counter of alloc/alloc_zeroed/realloc) and pointer arithmetic in the harness. Stack usage and reads are not observed.",
          "DESIGN.md section 6, C20"),
 }
